@@ -229,6 +229,21 @@ def P_early_then_late(ctx, t):
     call(ctx, t, "sendto", "ldl4", lambda: s.sendto(b"x", 21), sock=s)
 
 
+def P_dlc_server2(ctx, t):
+    # a listening socket with two accepted connections: the peer disconnects the older one (recv() -> None, the
+    # application does not close it yet), the thread then waits on the younger one and the link ends
+    s = nfc.llcp.Socket(ctx.llc, nfc.llcp.DATA_LINK_CONNECTION)
+    call(ctx, t, "bind", "dlc2", lambda: s.bind(b"urn:nfc:sn:dut"), sock=s)
+    call(ctx, t, "listen", "dlc2", lambda: s.listen(2), sock=s)
+    c1 = call(ctx, t, "accept", "dlc2", s.accept, sock=s)
+    know(ctx, c1, "dlc2c")
+    c2 = call(ctx, t, "accept", "dlc2", s.accept, sock=s)
+    know(ctx, c2, "dlc2cc")
+    call(ctx, t, "recv", "dlc2c", c1.recv, sock=c1)
+    call(ctx, t, "recv", "dlc2cc", c2.recv, sock=c2)
+    call(ctx, t, "recv", "dlc2cc", c2.recv, sock=c2)
+
+
 def _rejected_client(sid):
     # a connection that gets frame-rejected while the application waits in recv(): by the peer's FRMR, by an I PDU with
     # a wrong N(S) (the local side sends FRMR) or by a connection-less PDU addressed to it - the socket shuts itself
@@ -243,7 +258,7 @@ def _rejected_client(sid):
 
 P_dlc_frmr_peer, P_dlc_frmr_local, P_dlc_frmr_ui = _rejected_client("dlc7"), _rejected_client("dlc8"), _rejected_client("dlc9")
 
-PROGRAMS = dict(dlc_frmr_peer=P_dlc_frmr_peer, dlc_frmr_local=P_dlc_frmr_local, dlc_frmr_ui=P_dlc_frmr_ui,
+PROGRAMS = dict(dlc_server2=P_dlc_server2, dlc_frmr_peer=P_dlc_frmr_peer, dlc_frmr_local=P_dlc_frmr_local, dlc_frmr_ui=P_dlc_frmr_ui,
                 ldl_recv=P_ldl_recv, ldl_poll=P_ldl_poll, dlc_client=P_dlc_client, dlc_client_name=P_dlc_client_name,
                 dlc_server=P_dlc_server, resolve=P_resolve, poll_send=P_poll_send,
                 dlc_poll_recv=P_dlc_poll_recv, dlc_poll_acks=P_dlc_poll_acks, dlc_poll_send=P_dlc_poll_send,
@@ -258,6 +273,10 @@ def peer_for(progs, cut):
         # the peer connects to the DUT's named service (address 16: first free in the named range)
         script[3] = [pdu.Connect(16, 40, 128, 1)]
         script[6] = [pdu.Information(16, 40, 0, 0, b"ping")]
+    if "dlc_server2" in progs:
+        script[3] = [pdu.Connect(16, 40, 128, 1)]
+        script[5] = [pdu.Connect(16, 41, 128, 1)]
+        script[8] = [pdu.Disconnect(16, 40)]
     # frame rejects of an established connection (the DUT's client socket gets the first dynamic address, 32)
     if "dlc_frmr_peer" in progs:
         script[5] = [pdu.FrameReject(32, 20, 0x8, 12, 0, 0, 0, 0, 0, 0)]
@@ -378,10 +397,11 @@ def run_scenario(progs, cause, cut, chooser, max_steps=6000):
                 if id(socket) not in ctx.sid_of:
                     lst = [ctx.sid_of.get(id(x)) for x in self.sock_list if x is not socket and id(x) in ctx.sid_of]
                     if lst and socket.addr is not None:
-                        sid = lst[-1] + "c"
+                        lsid = min(lst, key=len)                      # the listener (adopted sockets append "c"s)
+                        sid = lsid + "c" * (1 + sum(1 for v in ctx.sid_of.values() if v.startswith(lsid + "c")))
                         ctx.sid_of[id(socket)] = sid
                         ctx.keep = getattr(ctx, "keep", []) + [socket]
-                        ctx.emit("Adopt", lname(), sid, lst[-1], "-")
+                        ctx.emit("Adopt", lname(), sid, lsid, "-")
                 return r
         llc_mod.ServiceAccessPoint.insert_socket = insert_socket
 
@@ -524,7 +544,7 @@ SCENARIOS_QUICK = [
     ("poll_send",), ("late_connect",), ("late_resolve",), ("late_accept",), ("late_recvfrom",),
     ("late_bound_recvfrom",), ("late_sendto",), ("early_then_late",),
     ("dlc_poll_recv",), ("dlc_poll_acks",), ("dlc_poll_send",),
-    ("dlc_frmr_peer",), ("dlc_frmr_local",), ("dlc_frmr_ui",),
+    ("dlc_frmr_peer",), ("dlc_frmr_local",), ("dlc_frmr_ui",), ("dlc_server2",),
     ("ldl_recv", "dlc_client"), ("dlc_server", "resolve"), ("ldl_poll", "dlc_client_name"),
 ]
 
